@@ -115,6 +115,28 @@ impl crate::InlineTable {
     }
 }
 
+/// Location of a table that was not written as such (created by dotted keys or only implied by a
+/// longer header): the region covering its entries
+pub(crate) fn entries_span(items: &crate::table::KeyValuePairs) -> Option<std::ops::Range<usize>> {
+    let mut span: Option<std::ops::Range<usize>> = None;
+    for (key, item) in items.iter() {
+        let item_span = match item {
+            crate::Item::Table(t) => t.span().or_else(|| entries_span(&t.items)),
+            crate::Item::Value(crate::Value::InlineTable(t)) => {
+                t.span().or_else(|| entries_span(&t.items))
+            }
+            item => item.span(),
+        };
+        for s in [key.span(), item_span].into_iter().flatten() {
+            span = Some(match span {
+                Some(old) => old.start.min(s.start)..old.end.max(s.end),
+                None => s,
+            });
+        }
+    }
+    span
+}
+
 pub(crate) struct TableMapAccess {
     iter: indexmap::map::IntoIter<crate::Key, crate::Item>,
     span: Option<std::ops::Range<usize>>,
